@@ -621,7 +621,8 @@ class World:
                     math.isfinite(o.get('thickness', 0)):
                 # positions are absolute: their round-off is relative to the
                 # size of the lens, not to the individual gap
-                o['thickness'] = o['thickness'] + 1e-12 * size
+                o['thickness'] = o['thickness'] + 1e-12 * size * (
+                    0.5 + ((o.get('index', 0) * 7919) % 13) / 13.0)
         try:
             jtwin = sut.new_lens(jops, share=False)
         except Exception:
@@ -767,7 +768,33 @@ class World:
                             f'dictionary of the reloaded lens differs from '
                             f'the one it was loaded from at {where}')
         # (b) same behaviour: rays and paraxial quantities
-        self.compare_behaviour(lens, L2, op, exact)
+        J = None
+        if not exact:
+            # inexact mode (a thickness pickup is re-applied on load and may
+            # move a vertex by an ulp): the response of every compared
+            # quantity to position noise of 1e-12 x lens size is measured on
+            # a third lens loaded from a jittered copy of the dictionary
+            try:
+                import copy as _copy
+                dj = _copy.deepcopy(canon(ref))
+                size = 1.0 + self.model.zscale
+                for k_, sd in enumerate(dj['surface_group']['surfaces']):
+                    z = sd['geometry']['cs']['z']
+                    if k_ >= 2 and isinstance(z, (int, float)) and \
+                            math.isfinite(z):
+                        # every vertex moved by its own amount, so that
+                        # every gap changes
+                        sd['geometry']['cs']['z'] = z + 1e-12 * size * (
+                            0.5 + ((k_ * 7919) % 13) / 13.0)
+                with quiet(), warnings.catch_warnings():
+                    warnings.simplefilter('ignore')
+                    J = Optic.from_dict(dj)
+            except Exception:
+                J = None
+            if J is None:
+                self.probe('ckpt_inexact_not_calibrated_skipped')
+                return
+        self.compare_behaviour(lens, L2, op, exact, J)
         if op.get('restart'):
             # crash-restart: only the durable form survives
             self.lens = L2
@@ -775,7 +802,7 @@ class World:
             if self.stats['state_changes'] >= 5:
                 self.probe('restart_after_5_edits')
 
-    def compare_behaviour(self, A, B, op, exact):
+    def compare_behaviour(self, A, B, op, exact, J=None):
         rays = op.get('rays') or [[0.0, 0.0, 0.0, 1.0, 0]]
         nw = len(A.wavelengths.wavelengths)
         bsdf_ks = [k for k, s in enumerate(A.surface_group.surfaces)
@@ -809,6 +836,7 @@ class World:
                 self.probe('bsdf_compared')
             ra = trace(A, w, reseed)
             rb = trace(B, w, reseed)
+            rj = trace(J, w, reseed) if J is not None else None
             self.stats['oracle_checks'] += 1
             if isinstance(ra, tuple) or isinstance(rb, tuple):
                 if ra != rb:
@@ -824,8 +852,9 @@ class World:
                     okq = False
                 elif exact:
                     okq = np.array_equal(a, b, equal_nan=True)
-                elif not (np.isfinite(ra['y']).all() and
-                          np.isfinite(rb['y']).all()):
+                elif isinstance(rj, tuple) or not all(
+                        np.isfinite(v[qq]).all() for v in (ra, rb, rj)
+                        for qq in ra):
                     # with a thickness pickup the reloaded lens may differ
                     # from the live one by an ulp in z; next to a failing
                     # ray that ulp is amplified without bound, so only
@@ -833,10 +862,11 @@ class World:
                     okq = True
                     self.probe('ckpt_inexact_batch_with_failed_rays_skipped')
                 else:
-                    fin = np.abs(a[np.isfinite(a)])
-                    big = fin.max() if fin.size else 0.0
-                    okq = np.allclose(a, b, rtol=1e-5, atol=1e-6 * (
-                        1 + big + self.model.zscale), equal_nan=True)
+                    big = np.abs(b).max() if b.size else 0.0
+                    resp = np.abs(b - rj[q]).max() if b.size and \
+                        rj[q].shape == b.shape else np.inf
+                    okq = bool((np.abs(a - b) <= 10 * resp + 1e-6 * big +
+                                1e-8 * (1 + self.model.zscale)).all())
                 if not okq:
                     raise Violation('behaviour', f'C19/ckpt/behaviour/{q}',
                                     f'{q} of traced rays differs between the '
@@ -853,10 +883,16 @@ class World:
             if exact:
                 tol = {}
             else:
-                flat = [abs(x) for x in _flatten(va)
-                        if isinstance(x, float) and math.isfinite(x)]
-                tol = {'rtol': 1e-5,
-                       'atol': 1e-6 * (1 + max(flat + [0.0]))}
+                vj = self.paraxial_value(J, name)
+                fa = [x for x in _flatten(vb) if isinstance(x, float)]
+                fj = [x for x in _flatten(vj) if isinstance(x, float)]
+                if len(fa) != len(fj) or not all(
+                        math.isfinite(x) for x in fa + fj):
+                    self.probe('ckpt_inexact_paraxial_skipped')
+                    continue
+                resp = max([abs(x - y) for x, y in zip(fa, fj)] + [0.0])
+                tol = {'rtol': 1e-6, 'atol': 10 * resp + 1e-9 * (
+                    1 + max([abs(x) for x in fa] + [0.0]))}
             ok, where = same(va, vb, **tol)
             if not ok:
                 raise Violation('behaviour', f'C19/ckpt/behaviour/paraxial',
